@@ -849,7 +849,12 @@ class _Frame:
                     return a ** int(b)
                 return a**b
             if op is ast.MatMult:
-                return a @ b
+                try:
+                    return a @ b
+                except XArrayError as e:
+                    if "shape mismatch" in str(e):
+                        raise XRaise("ValueError", f"matmul: dimension mismatch ({e})")  # numpy raises here too
+                    raise
             if op in (ast.FloorDiv, ast.Mod) and type(a) is int and type(b) is int and b == 0:
                 # Python integers (sizes, lengths): the program itself raises here
                 raise XRaise("ZeroDivisionError", "integer modulo by zero" if op is ast.Mod else "integer division or modulo by zero")
